@@ -313,7 +313,7 @@ def finish(prop, mod, tier, seed, results, crashed, wall, nshards):
         "property_id": prop, "tier": tier, "seed": seed, "level": "exploration",
         "coverage": coverage,
         "assumptions": list(getattr(mod, "ASSUMPTIONS", [])) + [
-            "simulated nRF24L01(+) model, assumptions A1-A22 of DESIGN.md section 2.1",
+            "simulated nRF24L01(+) model, assumptions A1-A25 of DESIGN.md sections 2.1 and 10.2",
             "virtual clock; MCU cost profiles and jitter are part of each recorded case"],
         "wall_s": round(wall, 2),
         "violations": sum(vcount.get(k, 0) for k in new_keys),
